@@ -244,8 +244,8 @@ def cast_rule(rep, wd, tier):
     def body(et, D, expr):
         return ("auto* sb = reinterpret_cast<%s*>(base); multi::subarray<%s, %d, strict_ptr<%s>> v(%s, strict_ptr<%s>::pointer_to(*sb)); observe(%s, base, out, i0, i1, i2, i3, i4);"
                 % (et, et, D, et, c12.mk(D), et, expr))
-    cr = viewops.CustomRun(rep, "C11", True, wd, "fc")
-    c12.add_cast_items(cr, 3 if tier == "thorough" else 2, fam="O11.cast", pre="O11", mkbody=body, only=cast_item)
+    cr = viewops.CustomRun(rep, "C11", False, wd, "fc")       # source views with symbolic index bases (zero is one of their values)
+    c12.add_cast_items(cr, 3 if tier == "thorough" else 2, fam="O11.cast", pre="O11", mkbody=body, only=cast_item, zb=False)
     cr.compile(nshards=8, extra_prelude=c12.EXTRA + PRE.replace("#pragma once", ""))
     cr.check()
     return len(cr.items)
@@ -332,7 +332,7 @@ def flow_rule(rep, wd, D, E, skip=()):
     nsrc = 0
     for name, f in sorted(mod.funcs.items()):
         dm = f.demangled
-        if "boost::multi" not in dm or dm.startswith("strict_ptr<") or re.search(r"^(\S+ )?strict_ptr<", dm) or "StrictAlloc<" in dm.split("(")[0]:
+        if "boost::multi" not in dm or dm.startswith("strict_ptr<") or re.search(r"^(\S+ )?strict_ptr<", dm) or re.match(r"^(?:\S+ )?(?:StrictAlloc|RawAlloc)<", dm):
             continue
         nfun += 1
         # values that hold a raw element address obtained from a fancy pointer
@@ -371,6 +371,21 @@ def flow_rule(rep, wd, D, E, skip=()):
                 # element arithmetic = first index not the constant 0 (field selection inside one element keeps the first index 0)
                 if idxs and idxs[0] != "0":
                     bad.append("%s: address arithmetic (%s) on the raw address returned by %s" % (ins.dst, ins.text.split(" = ", 1)[1][:70], raw[m.group(3)]))
+        # ... or handed, as the start of a range of several elements, to a routine that walks raw memory (block moves / fills, counted or
+        # ranged standard algorithms over T*): the fancy pointer's own arithmetic is bypassed for every element after the first
+        own_std = bool(re.match(r"^(?:.*? )?std::", re.sub(r"<.*", "", dm)))      # a standard algorithm instantiated with the library's iterators: not library code
+        for lab, b in f.blocks.items():
+            for ins in b:
+                if own_std or ins.op not in ("call", "invoke") or not ins.callee:
+                    continue
+                d = mod.demangled.get(ins.callee, ins.callee)
+                if not (ins.callee.startswith("llvm.mem") or re.search(r"(^|[ )])std::(fill_n|fill|copy_n|copy|copy_backward|uninitialized_\w+|memcpy|memmove|memset)<", d)
+                        or ins.callee in ("memcpy", "memmove", "memset")):
+                    continue
+                ops_ = re.findall(r"%[\w.]+", ins.text.split("(", 1)[1] if "(" in ins.text else "")
+                hit = [o for o in ops_ if o in raw]
+                if hit:
+                    bad.append("the raw address returned by %s is passed to %s, which walks raw memory" % (raw[hit[0]], re.sub(r"\(.*$", "", common_short(d))[-40:] or ins.callee))
         key = "R11.flow@%s" % re.sub(r"\s+", " ", common_short(dm))[:150]
         if bad:
             rep.violated(key, "R11.flow", "in the strict-pointer instantiation of %s a raw element address obtained from the fancy pointer is used for element arithmetic: %s"
@@ -470,6 +485,14 @@ def run(tier):
             continue
         nfun += a
         nsrc += b
+        if (D, "int") in strict_failed:
+            # the trivially copyable element selects other branches of the library (block copies / fills): the same rule on that instantiation
+            try:
+                a2, b2, _m2 = flow_rule(rep, wd, D, "int", strict_failed[(D, "int")])
+                nfun += a2
+                nsrc += b2
+            except common.AnalysisBroken as e:
+                rep.break_("R11.flow (D=%d, int): %s" % (D, str(e)[:300]))
         try:
             c, d_ = life_rule(rep, wd, D, "Elt", strict_failed[(D, "Elt")], smod)
         except common.AnalysisBroken as e:
